@@ -221,10 +221,9 @@ func runC03(c *fw.Ctx) {
 	// the same exploration over the single-file cases of the shared streams: every document in
 	// which some map range sees two or more keys gets all its iteration orders (documents are
 	// distributed over the workers, the orders of one document stay with one worker)
-	which := map[string]bool{"pool": true, "variants": true, "paste": true, "multi": true}
+	which := map[string]bool{"pool": true, "variants": true, "paste": true, "multi": true, "names": true}
 	if !c.Quick() {
 		which["corpus"] = true
-		which["names"] = true
 	}
 	eachCase(c, which, func(sc streamCase) {
 		if len(sc.proj.Files) != 1 || len(sc.proj.Dirs) != 0 || len(sc.opt.Banned) > 0 {
@@ -235,6 +234,17 @@ func runC03(c *fw.Ctx) {
 		}
 		c.Count("stream_documents", 1)
 		c.Count("evaluations", 2) // the canonical run and its replay (choice-trace determinism)
+		// one file object compiled twice: same result, and the caller's bytes are not written to
+		if a, b, intact := drv.RunFileTwice("root.jst", sc.proj.Files[sc.proj.Root], sc.opt); !a.Crashed() && !b.Crashed() {
+			c.Count("evaluations", 2)
+			if digestOutcome(a, "") != digestOutcome(b, "") || !intact {
+				what := "the second compilation of the same file object gives " + b.Short() + ", the first " + a.Short()
+				if !intact {
+					what = "compiling the file changed the bytes of the file object the caller handed in; " + what
+				}
+				c.Violate("differs-between-calls", "C03:same-file-twice", sc.stream+" "+sc.label+": "+what, map[string]interface{}{"text": sc.proj.Files[sc.proj.Root]})
+			}
+		}
 		exploreOrders(c, sc.stream+":"+sc.label, sc.proj.Files[sc.proj.Root], limit/10, false)
 	})
 
